@@ -94,7 +94,7 @@ def rule_r1(ctx, rep):
                     "taken from a slice other than [1:]", fi.loc())
         # the length guard is reported as evidence only: whether an attribute counts as enumerated is decided semantically
         # (R2 evaluates the validator's guard chain, the table fold below evaluates the helpers)
-    rep.floor("attribute-spec subscripts", 6)
+    rep.floor("attribute-spec subscripts", 3)
     # introspection helpers folded over every attribute spec of the table
     pe = PEval(ctx.world)
     f_req = rule_method(prog, "is_required_attribute")
@@ -171,12 +171,12 @@ def rule_r2(ctx, rep):
             continue
         p = ps[0]
         loop = _loop_of(fi, p.if_node)
-        if loop is None or not isinstance(loop.target, ast.Name):
+        if loop is None or not isinstance(loop.target, (ast.Name, ast.Tuple)):
             rep.oblige(("R2", code, "loop"), False)
             rep.add("R2", fi.qname, p.append_call, f"the {code} report is not inside a loop over the attributes", fi.loc(p.if_node))
             continue
         it = norm(loop.iter)
-        it_ok = (coll == "rule" and it in (f"{s}._attributes", f"{s}.attributes", f"{s}._attributes.keys()", f"{s}._attributes.items()")) or \
+        it_ok = (coll == "rule" and it in (f"{s}._attributes", f"{s}.attributes", f"{s}._attributes.keys()", f"{s}._attributes.items()", f"{s}.attributes.items()")) or \
                 (coll == "node" and it in (f"{nodep}.attributes", f"{nodep}._attributes", f"{nodep}.attributes.keys()", f"{nodep}.attributes.items()",
                                            f"list({nodep}.attributes)", f"{nodep}.list_attributes()"))
         rep.oblige(("R2", code, "collection"), it_ok)
@@ -191,32 +191,25 @@ def rule_r2(ctx, rep):
             rep.add("R2", fi.qname, bad[0], f"the attribute loop is left early: later violations of {code} are not reported in collecting mode",
                     fi.loc(bad[0]))
         # evaluate the report's guard chain over the abstraction
-        guards = [(g, b) for (g, b) in enclosing_ifs(fi, p.if_node) if any(x is g for x in ast.walk(loop))]
-        prefix = []
-        for st in loop.body:
-            if any(x is p.if_node for x in ast.walk(st)):
-                break
-            if isinstance(st, (ast.Assign, ast.AnnAssign)):
-                prefix.append(st)
+        from ..condeval import guard_verdict
         pe = PEval(ctx.world)
         failed = False
+        tgt = loop.target
         for na in worlds:
             selfobj = {"__obj__": True, "_attributes": rule_attrs, "attributes": rule_attrs}
             nodeobj = {"__obj__": True, "attributes": na, "_attributes": na, "name": "n", "_name": "n"}
-            keys = list(rule_attrs) if coll == "rule" else list(na)
-            for a in keys:
-                env = {s: selfobj, nodep: nodeobj, mp: None, loop.target.id: a}
+            coll_d = rule_attrs if coll == "rule" else na
+            for a in list(coll_d):
+                env = {s: selfobj, nodep: nodeobj, mp: None}
+                if isinstance(tgt, ast.Name):
+                    env[tgt.id] = a
+                elif isinstance(tgt, ast.Tuple) and len(tgt.elts) == 2 and all(isinstance(x, ast.Name) for x in tgt.elts):
+                    env[tgt.elts[0].id] = a
+                    env[tgt.elts[1].id] = coll_d[a]
                 try:
-                    for st in prefix:
-                        pe.stmt(st, env, fi, 0)
-                    verdict = True
-                    for (g, in_body) in guards:
-                        v = bool(pe.truth(pe.eval(g.test, env, fi), g.test))
-                        if v != in_body:
-                            verdict = False
-                            break
-                except Raised as ex:
-                    verdict = f"raises {ex.cls}"
+                    verdict = guard_verdict(ctx, fi, p.if_node, env, pe)
+                    if isinstance(verdict, tuple):
+                        verdict = f"raises {verdict[1]}"
                 except PEvalUnsupported as ex:
                     raise AnalysisError(f"{fi.loc(p.if_node)}: cannot evaluate the guard of the {code} report: {ex}")
                 if code == "ATTRIBUTE_REQUIRED":
@@ -230,7 +223,7 @@ def rule_r2(ctx, rep):
                 rep.oblige(("R2e", code, a, tuple(sorted(na.items()))), ok)
                 if not ok and not failed:
                     failed = True
-                    rep.add("R2", fi.qname, guards[-1][0].test if guards else p.append_call,
+                    rep.add("R2", fi.qname, p.append_call,
                             f"{code}: with rule attributes {rule_attrs} and node attributes {na}, attribute '{a}' is "
                             f"{'reported' if verdict is True else 'not reported' if verdict is False else verdict}; the constraint requires "
                             f"{'a report' if want else 'no report'}", fi.loc(p.if_node))
